@@ -1,4 +1,5 @@
 import GoomVerif.Lemmas.C06L
+import GoomVerif.Lemmas.C06HL
 /-!
 # C06 — method mocks replace exactly the named method, for every instance
 
@@ -239,7 +240,62 @@ theorem unmocked_runs_original {R A : Type} (syms : List Str) (s : BState) (e : 
     callObs syms s e dict recv args = .orig recv args := by
   simp [callObs, h]
 
-/-! ## 6. the hypotheses are satisfiable / the statements are not vacuous -/
+/-! ## 6. kept handles: realistic multi-step use (`Model/MethodH.lean`, the model the driver runs)
+
+The handle-level model adds what lies between a lookup and the patch: the per-struct method caches with their
+`!Canceled()` test, the baseMocker state (`when`, `canceled`, guard), `Apply` / `Return` / `Returns` / `When..Return` /
+`As(..).Return` / `Cancel` on kept handles, `Reset` as "cancel every cached mocker", and the call-time behaviour of the
+`reflect.MakeFunc` stub. -/
+
+/-- **isolation for every history of the handle-level model** (lookups through any API path, kept handles, Apply,
+    Return, Returns, When, Cancel, re-arming after Cancel/Reset, Reset — in any order and number): a declared method whose
+    code no lookup of the history names is never patched; `N` is any list containing the names the lookups name. -/
+theorem handle_isolation (syms : List Str) (entries : List Entry) (e : Entry) (steps : List MethodH.Step) (N : List Str)
+    (hN : ∀ st ∈ steps, ∀ l, MethodH.stepLook st = some l → ∀ n, MethodH.lookName entries l = some n → n ∈ N)
+    (he : e.callSym ∉ N) :
+    MethodH.behavOf syms (MethodH.run syms entries MethodH.HState.init 0 steps).1.patched e = none := by
+  have h0 : C06HL.SInv syms N MethodH.HState.init := by
+    refine ⟨⟨?_, ?_⟩, ⟨?_, ?_⟩⟩ <;> simp [MethodH.HState.init, MethodH.aget]
+  have h := C06HL.run_inv (syms := syms) (N := N) entries steps MethodH.HState.init 0 hN h0
+  exact C06HL.behavOf_none_of_NI e he _ _ h.2
+
+/-- … and a call of such a method (on any instance: the model has no instance parameter to depend on) runs its
+    original body and changes nothing -/
+theorem handle_call_original (syms : List Str) (s : MethodH.HState) (e : Entry)
+    (h : MethodH.behavOf syms s.patched e = none) : MethodH.call syms s e = (s, .orig) := by
+  simp [MethodH.call, h]
+
+/-- `h.Apply(cb k)` on a kept handle replaces exactly the code its mocker targets: the method named at lookup time
+    now enters callback `k` — also when the handle was cancelled before (fix 50de3fa) or carried a When (fix 32dc3bc) -/
+theorem handle_apply_hits (syms : List Str) (entries : List Entry) (s : MethodH.HState) (k h id i : Nat)
+    (mk : MethodH.Mocker) (e : Entry)
+    (hh : MethodH.aget s.handles h = some id) (hm : MethodH.aget s.mockers id = some mk)
+    (hi : symIndex syms mk.target = some i) (he : e.callSym = mk.target) :
+    (MethodH.step syms entries s k (.apply h)).2 = .ok ∧
+    MethodH.behavOf syms (MethodH.step syms entries s k (.apply h)).1.patched e = some (.cb k) := by
+  have hg := symIndex_get syms mk.target i hi
+  simp [MethodH.step, MethodH.withMk, hh, hm, MethodH.applyCb, MethodH.applyMk, hi, MethodH.clearWhen,
+    MethodH.aget, MethodH.setMk, MethodH.behavOf, hg, he]
+
+/-- **the handle-level model refines the patch-level model**: on every history of one-shot steps (lookup + Apply,
+    no Reset in between) its patch list, seen through `toOld`, and its answers are those of `Method.run` — so
+    `run_last_writer`, `single_mock_exact`, `byname_mock_exact_partial` speak about the model the driver runs.
+    (Reset: the patch-level model restores everything; the handle-level model cancels the cached mockers — that
+    these coincide is C02's subject and is compared on every run.) -/
+theorem oneshot_refines (syms : List Str) (entries : List Entry) (steps : List Step)
+    (hr : ∀ st ∈ steps, st.isReset = false) :
+    MethodH.toOld (MethodH.run syms entries MethodH.HState.init 0 (steps.map MethodH.embed)).1 =
+      (run syms entries BState.init 0 steps).1 ∧
+    (MethodH.run syms entries MethodH.HState.init 0 (steps.map MethodH.embed)).2 =
+      (run syms entries BState.init 0 steps).2 := by
+  have h0 : C06HL.RInv entries MethodH.HState.init := by
+    refine ⟨⟨?_, ?_⟩, ?_⟩
+    · simp [MethodH.HState.init]
+    · simp [MethodH.HState.init]
+    · intro key id hk; simp [MethodH.HState.init, MethodH.aget] at hk
+  exact C06HL.run_sim syms entries steps MethodH.HState.init 0 hr h0
+
+/-! ## 7. the hypotheses are satisfiable / the statements are not vacuous -/
 
 section Examples
 def pa : Str := "x/pa".toList
@@ -280,6 +336,21 @@ example : behavOf exSyms (run exSyms exEntries BState.init 0 [.structMethod ⟨p
           behavOf exSyms (run exSyms exEntries BState.init 0 [.structMethod ⟨pa, "T".toList, false⟩ "Get".toList]).1.patched eGetX = none :=
   single_mock_exact exSyms exEntries eGet eGetX (by decide) (by decide) (by decide) (by decide) rfl (by decide) (by decide)
     (by decide) (by decide) (by decide)
+/-- kept handle (seed-1 shape): Return, Cancel, Return again on the SAME handle → the stub answers the new value on every
+    call; the prefix-named sibling is untouched; a by-name handle: As.Return → Apply → As.Return ends on the last value -/
+example :
+    let tGet : Ty := ⟨pa, "T".toList, false⟩
+    let s := (MethodH.run exSyms exEntries MethodH.HState.init 0
+      [.look 0 (.structMethod tGet "Get".toList), .ret 0 6, .cancel 0, .ret 0 7,
+       .look 1 (.exportStruct pa "*T".toList "set".toList), .ret 1 8, .apply 1, .ret 1 9]).1
+    (MethodH.call exSyms s eGet).2 = .val 7 ∧ (MethodH.call exSyms s eGetX).2 = .orig ∧
+    (MethodH.call exSyms s eSet).2 = .val 9 := by decide
+
+/-- the hypotheses of `handle_isolation` hold for that history and the never-named `T2.Get` -/
+example :
+    MethodH.behavOf exSyms (MethodH.run exSyms exEntries MethodH.HState.init 0
+      [.look 0 (.structMethod ⟨pa, "T".toList, false⟩ "Get".toList), .ret 0 6, .cancel 0, .ret 0 7, .reset, .apply 0]).1.patched eT2 = none :=
+  handle_isolation exSyms exEntries eT2 _ [eGet.callSym] (by decide) (by decide)
 end Examples
 
 end C06
